@@ -124,9 +124,10 @@ pub fn child_main() {
                 let doc = unhex(t[4]);
                 let pool: Vec<Vec<u8>> = if t[5] == "-" { vec![] } else { t[5].split(',').map(unhex).collect() };
                 let tree = if t[6] == "1" { decode_wire(&doc) } else { None };
+                let prelude: Vec<Op> = if t.len() > 7 && t[7] != "-" { t[7..].join(" ").split(';').filter_map(parse_op).collect() } else { vec![] };
                 std::thread::Builder::new().stack_size(stack << 10).spawn(move || {
                     let mut rng = Rng::new(seed);
-                    gen_history_streaming(&mut rng, &doc, tree.as_ref(), nops, &pool);
+                    gen_history_impl(&mut rng, &doc, tree.as_ref(), nops, &pool, true, &prelude);
                 }).unwrap().join().ok();
                 println!("DONE"); std::io::stdout().flush().unwrap();
             }
@@ -236,9 +237,8 @@ fn mirror_step<'a>(w: &'a Wire, op: &Op) -> Option<&'a Wire> {
 pub struct Hist { pub ops: Vec<Op>, pub obs: Vec<String> }
 
 /// Generate and run a history of `n` ops adaptively.
-pub fn gen_history_streaming(rng: &mut Rng, doc: &[u8], tree: Option<&Wire>, n: usize, pool: &[Vec<u8>]) -> Hist { gen_history_impl(rng, doc, tree, n, pool, true) }
-pub fn gen_history(rng: &mut Rng, doc: &[u8], tree: Option<&Wire>, n: usize, pool: &[Vec<u8>]) -> Hist { gen_history_impl(rng, doc, tree, n, pool, false) }
-fn gen_history_impl(rng: &mut Rng, doc: &[u8], tree: Option<&Wire>, n: usize, pool: &[Vec<u8>], stream: bool) -> Hist {
+pub fn gen_history(rng: &mut Rng, doc: &[u8], tree: Option<&Wire>, n: usize, pool: &[Vec<u8>]) -> Hist { gen_history_impl(rng, doc, tree, n, pool, false, &[]) }
+fn gen_history_impl(rng: &mut Rng, doc: &[u8], tree: Option<&Wire>, n: usize, pool: &[Vec<u8>], stream: bool, prelude: &[Op]) -> Hist {
     let mut s = Session::new(doc);
     let mut ops: Vec<Op> = vec![]; let mut obs: Vec<String> = vec![];
     let mut mirror: Vec<Option<&Wire>> = vec![];
@@ -247,7 +247,10 @@ fn gen_history_impl(rng: &mut Rng, doc: &[u8], tree: Option<&Wire>, n: usize, po
     for step in 0..n {
         let containers: Vec<usize> = obs.iter().enumerate().filter(|(_, o)| o.starts_with("VAL ARR") || o.starts_with("VAL OBJ")).map(|(i, _)| i).collect();
         let vals: Vec<usize> = obs.iter().enumerate().filter(|(_, o)| o.starts_with("VAL")).map(|(i, _)| i).collect();
-        let op = if step == 0 || vals.is_empty() || rng.chance(6) { Op::Root }
+        let strs: Vec<usize> = obs.iter().enumerate().filter(|(_, o)| o.starts_with("VAL STR")).map(|(i, _)| i).collect();
+        let op = if step < prelude.len() { prelude[step].clone() } else if step == 0 || vals.is_empty() || rng.chance(6) { Op::Root }
+        // revisit an OLD string handle (oldest ones preferred): its bytes must not depend on what was read since
+        else if !strs.is_empty() && rng.chance(12) { let k = if rng.chance(50) { strs[rng.below(strs.len().min(4) as u64) as usize] } else { *rng.pick(&strs) }; if rng.chance(80) { Op::Str(Sc::Ans(k)) } else { Op::Len(Sc::Ans(k)) } }
         else {
             // sibling-after-half-descent pattern: ask the parent of the latest container for the next index
             let sib = last_container.and_then(|c| parent[c]);
@@ -346,9 +349,10 @@ pub struct Acc {
 impl Acc {
     pub fn new() -> Acc { Acc { evals: 0, id: 0, distinct: Default::default(), opk: Default::default(), ansk: Default::default(), classes: Default::default(), sizes: Default::default(), depths: Default::default() } }
     /// Run one document in the child, record it.
-    pub fn doc(&mut self, out: &mut Out, pool: &mut Pool, r: &mut Rng, class: &str, doc: &[u8], keys: &[Vec<u8>], wf: bool, nops: usize) {
-        let job = format!("JOB {} {} {} {} {} {}", r.next_u64(), nops, stack_for(class), hex(doc),
-                          if keys.is_empty() { "-".to_string() } else { keys.iter().map(|k| hex(k)).collect::<Vec<_>>().join(",") }, if wf { 1 } else { 0 });
+    pub fn doc(&mut self, out: &mut Out, pool: &mut Pool, r: &mut Rng, class: &str, doc: &[u8], keys: &[Vec<u8>], wf: bool, nops: usize) { self.doc_with(out, pool, r, class, doc, keys, wf, nops, "-") }
+    pub fn doc_with(&mut self, out: &mut Out, pool: &mut Pool, r: &mut Rng, class: &str, doc: &[u8], keys: &[Vec<u8>], wf: bool, nops: usize, prelude: &str) {
+        let job = format!("JOB {} {} {} {} {} {} {}", r.next_u64(), nops, stack_for(class), hex(doc),
+                          if keys.is_empty() { "-".to_string() } else { keys.iter().map(|k| hex(k)).collect::<Vec<_>>().join(",") }, if wf { 1 } else { 0 }, prelude);
         let (ops, obs) = pool.run(&job);
         *self.classes.entry(class.to_string()).or_insert(0) += 1;
         *self.sizes.entry(if doc.len() < 32 { "<32B" } else if doc.len() < 256 { "<256B" } else if doc.len() < 4096 { "<4KiB" } else { ">=4KiB" }).or_insert(0) += 1;
@@ -404,7 +408,24 @@ pub fn run(a: &Args, out: &mut Out) {
         let nops = if big { 30 } else { r.range(20, 60) as usize };
         acc.doc(out, &mut pool, &mut r, if big { "big" } else { "wf" }, &doc, &keys, true, nops);
     }
-    acc.finish(out, "random well-formed documents (depth<=6, fan-out from {0,1,2,3,4,5,15,16,17,31,32}, every int/float/str/array/map format incl. non-minimal headers, 15% with duplicate keys) plus documents with strings of 255/256, 2^14-3..2^14+2, 65535/65536/70000 bytes and arrays/maps of 255/256 (thorough: also 2^14-3..2^14+2) elements; per document 20-60 read calls chosen adaptively among ALL handles obtained so far (sibling after half-descended child, revisits, by-name/by-interned-id/by-index/key-at-index/len/string bytes, out-of-range or wrong-kind scopes, 3% undecodable scope, root re-fetched); each document runs in a child process so an abort is an observation; non-trivial = some call reached a non-error value below the root; distinct = distinct (document prefix, op list)");
+    // mid-size containers of handle-carrying children, long histories that keep using early handles
+    let nmid = if thorough { 45 } else { 9 };
+    for i in 0..nmid {
+        let mut r = rng.fork(700_000 + i as u64);
+        // quick: sizes 1025/1040/1100 only (the list-based model costs ~|doc| per parsed element)
+        let sel = if thorough { i } else { (r.below(3) + 5 * r.below(3)) as usize };
+        let tree = gen_mid(&mut r, sel);
+        let doc = tree.bytes();
+        let keys: Vec<Vec<u8>> = vec![b"x".to_vec(), b"y".to_vec(), b"k0".to_vec(), b"k1".to_vec(), b"k1024".to_vec(), b"k1299".to_vec()];
+        *acc.depths.entry(tree.depth()).or_insert(0) += 1;
+        // prelude: take handles of a few early children of both big containers, read them, then jump past
+        // index 1024 in each, then read the early handles again; the adaptive history continues from there
+        let (c0, c1) = match &tree { Wire::Map(..) => ("PROP 0 78", "PROP 0 79"), _ => ("IDX 0 0", "IDX 0 1") };
+        let far = 1024 + r.below(10) as usize;
+        let prelude = format!("ROOT;{};IDX 1 0;IDX 1 1;IDX 1 2;STR 2;STR 3;{};IDX 7 0;IDX 7 1;STR 8;IDX 1 {};STR 2;STR 3;IDX 2 0;IDX 3 0;IDX 7 {};STR 8;STR 9;IDX 8 0;LEN 2;KEY 1 1;KEY 1 {}", c0, c1, far, far + 1, far + 2);
+        acc.doc_with(out, &mut pool, &mut r, "mid", &doc, &keys, true, 120, &prelude);
+    }
+    acc.finish(out, "random well-formed documents (depth<=6, fan-out from {0,1,2,3,4,5,15,16,17,31,32}, every int/float/str/array/map format incl. non-minimal headers, 15% with duplicate keys) plus documents with strings of 255/256, 2^14-3..2^14+2, 65535/65536/70000 bytes and arrays/maps of 255/256 (thorough: also 2^14-3..2^14+2) elements, plus containers of 1025..4100 strings/arrays/pairs read with 120-call histories that keep using early handles; per document 20-60 read calls chosen adaptively among ALL handles obtained so far (sibling after half-descended child, revisits, by-name/by-interned-id/by-index/key-at-index/len/string bytes, out-of-range or wrong-kind scopes, 3% undecodable scope, root re-fetched); each document runs in a child process so an abort is an observation; non-trivial = some call reached a non-error value below the root; distinct = distinct (document prefix, op list)");
 }
 
 /// C08: arbitrary / malformed input bytes.
